@@ -64,7 +64,7 @@ Bad(r) ==
   IF ~StackOK(r.st) \/ ~(KeysOf(r.req) \subseteq AllKeys(r.st)) THEN {"WF"}
   ELSE IF r.err # "" THEN {"RZ"}
   ELSE
-  LET st   == r.st
+  LET st   == Prep(r.st)
       den  == Den(st)
       req  == KeysOf(r.req)
       need == Cull(st, req)
